@@ -199,6 +199,18 @@ func (g *Gen) run() {
 func (g *Gen) axiomRelevant(ax *Clause) bool { return true }
 
 func (g *Gen) bindFail(c *Clause, err error) {
+	if len(c.Props) > 0 && strings.HasPrefix(c.Where, "deps/") && g.con != nil {
+		shared := false
+		for _, p := range c.Props {
+			if hasProp(g.con.Props, p) {
+				shared = true
+			}
+		}
+		if !shared {
+			g.note("dependency precondition " + c.Label + " (" + c.Where + ") is stated for " + strings.Join(c.Props, " ") + " in a vocabulary this package's contracts do not define: not an obligation of " + g.name)
+			return
+		}
+	}
 	g.errs = append(g.errs, fmt.Sprintf("binding failure %s %s (%s): %v", c.Kind, c.Label, c.Where, err))
 }
 
